@@ -8,6 +8,13 @@ import (
 )
 
 func appendStackTrace(e *object.PanErr, src *ast.Source) *object.PanErr {
+	// NOTE: `_` (NotImplemented) is a single object shared by all evaluations in the process.
+	// copy it otherwise stacktraces of earlier programs are accumulated in it
+	if e == object.BuiltInNotImplemented {
+		copied := *e
+		e = &copied
+	}
+
 	var out bytes.Buffer
 
 	stackTrace := parseSrc(src)
